@@ -161,7 +161,7 @@ def txnStatus (cmd : Bytes) (prev : Txn) : Txn × Bool :=
 /-! ### what goes on the wire -/
 
 inductive Req
-  | cmd (name : Bytes) (args : List Bytes)
+  | cmd (name : Bytes) (args : List Bytes) (off : Int)   -- `off`: ghost, the item's stream offset (not on the wire)
   | multi
   | exec
   | cpMeta                  -- hset <cp> <rid>_runid <rid> <rid>_version <ver>
@@ -219,7 +219,7 @@ def cpInAfter (c : SCfg) (s : SState) (u : Bool) : List Int :=
 /-- the requests of one flush, in wire order -/
 def sendReqs (c : SCfg) (s : SState) (tb u : Bool) (off : Int) : List Req :=
   (if tb then [Req.multi] else []) ++
-  s.queue.map (fun i => Req.cmd i.cmd i.args) ++ cpPart c s u off ++
+  s.queue.map (fun i => Req.cmd i.cmd i.args i.offset) ++ cpPart c s u off ++
   (if tb then [Req.exec] else [])
 
 /-- `sendFuncOnce(shouldInTransaction, shouldUpdateCP, lastOffset)` with a
